@@ -312,10 +312,10 @@ Definition write_add (x0 : ctx) (w0 : world) : res bool * ctx * world :=
       let '(rb, xb, wb) := buffer_frame xa msg w0 in
       match rb with
       | RErr (EWriteBufferFull f') => (ROk false, set_additional xb f', wb)
-      | RErr e => (RErr e, xb, wb)
+      | RErr e => (RErr e, set_unflushed xb true, wb)
       | RPanic s => (RPanic s, xb, wb)
       | ROutOfFuel => (ROutOfFuel, xb, wb)
-      | ROk _ => (ROk true, xb, wb)
+      | ROk _ => (ROk true, set_unflushed xb true, wb)
       end
   | None => (ROk (x_unflushed x0), x0, w0)
   end.
@@ -380,6 +380,19 @@ Proof.
       * inversion H; subst; clear H. repeat split; try assumption; discriminate.
       * inversion H; subst; clear H. repeat split; try assumption; discriminate.
   - intros H. inversion H; subst; clear H. repeat split; try apply st_step_refl. apply Moves_refl.
+Qed.
+
+(* (fix 50d46f1) whenever _write moves the parked frame into the codec's buffer -- it answers Ok(true) or a
+   non-WriteBufferFull error -- unflushed_additional is set, so the next read()/flush() retries the flush *)
+Lemma write_add_unflushed x0 w0 r1 x1 w1 :
+  write_add x0 w0 = (r1, x1, w1) -> x_additional x0 <> None ->
+  (r1 = ROk true \/ exists e, r1 = RErr e) -> x_unflushed x1 = true.
+Proof.
+  unfold write_add. destruct (x_additional x0) as [msg|]; [|intros _ Hn; exfalso; apply Hn; reflexivity].
+  destruct (buffer_frame (set_additional_raw x0 None) msg w0) as [[rb xb] wb].
+  intros H _ Hr. destruct rb as [u|e|s|]; [| destruct e | |];
+    inversion H; subst; clear H; try reflexivity;
+    destruct Hr as [Hr|[e' Hr]]; discriminate.
 Qed.
 
 Lemma write_tail_spec r1 x1 w1 r x' w' :
